@@ -3,6 +3,7 @@ import RR.Model.Hand
 import RR.Model.Source
 import RR.Model.Dsp
 import RR.Model.Conv
+import RR.Model.FileSrc
 import RR.Model.Util
 
 /-!
@@ -171,6 +172,11 @@ def sourceRegistry (name : String) (p : List Nat) : Option Block :=
   match name, p with
   | "vsrc", [rep, len, seed, m] =>
     some (Src.vsBlock (genData len seed m []) (if rep == 2 ^ 32 then Src.Repeat.infinite else Src.Repeat.finite rep))
+  | "fsrc", [rep, len, seed, size] =>
+    -- a file of `len` bytes (byte i = generated value mod 256) read as `size`-byte little-endian samples
+    some (Src.fsBlock (genData len seed 256 []) size (if rep == 2 ^ 32 then Src.Repeat.infinite else Src.Repeat.finite rep))
+  | "sgsrc", [rep, len, seed, size] =>
+    some (Src.sgBlock (Src.tameBytes (genData len seed 256 [])) size (if rep == 2 ^ 32 then Src.Repeat.infinite else Src.Repeat.finite rep))
   | _, _ => none
 
 def registry (name : String) (p : List Nat) : Option Block :=
